@@ -209,6 +209,10 @@ def o_permit(v: View, stats=None):
     rr = v.reported_reason()
     if rr is not None:
         seen.append(("delivered", rr))
+    elif v.is_execute and not v.no_retry and v.final[0] == "return" and tname(v.final[1]) == "RetryOutcome" and not v.final[1].ok and last is not None \
+            and not any(e_[0] == "br.allow" and not e_[1] for e_ in v.trace) and not v.sc.get("fault"):
+        # the run stopped on a failure and says so (ok=False) - but not why: "the stop reason it reports" is no reason at all
+        yield "stop-reason-missing", f"execute() returned a failed outcome without a stop_reason (events said {[r_ for _, r_ in seen]}; last failure: {(last.i, last.klass, last.cause)})"
     for src, r in seen:
         if not reason_holds(v, r, last):
             yield "stop-reason-does-not-hold:" + r, f"{src} reports {r} but that condition does not hold (last failure: {last and (last.i, last.klass, last.cause, last.t_fail)})"
